@@ -67,5 +67,38 @@ theorem lam_sum (h : X.Ok B) (cs : List F) (hlen : cs.length ≤ X.ids.length) :
     (X.ids.map fun i => X.lam i * hornerR cs i).sum = hornerR cs 0 :=
   lagrange_interp_list X.ids h.nodup cs hlen 0
 
+/-- **For any share function `s`** (whatever the signers hold) with verifying shares
+    `sᵢ•G` in the coordinator's package and group key `key•G`: the aggregate of the honestly
+    computed signature shares is released iff `c · (Σ λᵢ sᵢ − key) = 0`. -/
+theorem aggregate_ok_iff_interp (h : X.Ok B) (hG : B.G ≠ 0) (hcof : B.cofactor ≠ 0)
+    (s : F → F) (key : F) (hvk : X.vk = key • B.G)
+    (pkp : PublicKeyPackage F E) (hpvk : pkp.vk = X.vk)
+    (hvs : ∀ i ∈ X.ids, SMap.get? pkp.vshares i = some (s i • B.G))
+    (hmin : ∀ m, pkp.minSigners = some m → m ≤ X.ids.length) (mode : CheaterDetection) :
+    (∃ σ, aggregateCustom (Suite.ofBase B) (X.pkg B) (X.sharesMap (X.honest s)) pkp mode = .ok σ)
+      ↔ X.c * ((X.ids.map fun i => X.lam i * s i).sum - key) = 0 := by
+  rw [aggregate_eq h (fun i => s i • B.G) (X.honest s) pkp hpvk hvs hmin mode]
+  have hchk : ((X.ids.map (X.honest s)).sum • B.G - X.c • X.vk) - X.R =
+      (X.c * ((X.ids.map fun i => X.lam i * s i).sum - key)) • B.G := by
+    have := check_eq h s (fun _ => 0)
+    simp only [add_zero, List.map_const', List.sum_replicate, smul_zero, zero_smul, zero_add]
+      at this
+    rw [this, hvk]; module
+  rw [hchk, smul_smul]
+  constructor
+  · rintro ⟨σ, hσ⟩
+    by_contra hne
+    rw [if_neg] at hσ
+    · cases hσ
+    · intro h0
+      rcases smul_eq_zero.mp h0 with h1 | h1
+      · rcases mul_eq_zero.mp h1 with h2 | h2
+        · exact hcof h2
+        · exact hne h2
+      · exact hG h1
+  · intro h0
+    rw [h0, mul_zero, zero_smul, if_pos rfl]
+    exact ⟨_, rfl⟩
+
 end SignSession
 end Frost
